@@ -351,9 +351,12 @@ class C10(Check):
                     LPIN.random = rnd
                     RUN.configure_logging = lambda p: None
                     SRV.socketserver = FakeSocketServerModule(record)
-                    fake_os = types.SimpleNamespace(environ=environ)
+                    fake_os = memfs.FakeOs(fs, environ)
                     manager_ledger.os = fake_os
                     manager_sgx.os = fake_os
+                    for _m in (manager_ledger, manager_sgx):
+                        _m.open = fs.open
+                        _m.shutil = memfs.FakeShutil(fs)
                     options = types.SimpleNamespace(
                         pin_file=PIN_FILE, force_pin_change=case["force"] and life == 0,
                         logconfigfilepath="x", version_one=False, host="h", port=1,
@@ -469,9 +472,12 @@ class C10(Check):
                 LPIN.random = DetRandom()
                 RUN.configure_logging = lambda p: None
                 SRV.socketserver = FakeSocketServerModule(record)
-                fake_os = types.SimpleNamespace(environ={"PIN": DEFAULT_PIN.decode()})
+                fake_os = memfs.FakeOs(fs, {"PIN": DEFAULT_PIN.decode()})
                 manager_ledger.os = fake_os
                 manager_sgx.os = fake_os
+                for _m in (manager_ledger, manager_sgx):
+                    _m.open = fs.open
+                    _m.shutil = memfs.FakeShutil(fs)
                 options = types.SimpleNamespace(
                     pin_file=PIN_FILE, force_pin_change=case["force"], logconfigfilepath="x",
                     version_one=case["v1"], host="h", port=1, io_debug=False, tcpconn_host="h",
